@@ -120,6 +120,11 @@ where
             }
         }
 
+        #[cfg(datacake_verif)]
+        if let Some(delay) = datacake_crdt::verif::jitter_for("group.get_or_create") {
+            tokio::time::sleep(delay).await;
+        }
+
         self.add_state(name.to_string(), OrSWotSet::default()).await
     }
 
@@ -314,6 +319,10 @@ impl KeyspaceTimestamps {
                 })
                 .or_insert_with(|| (*val, 1, false));
         }
+
+        // `processed` is a std HashMap: pin the (otherwise arbitrary) output order.
+        #[cfg(datacake_verif)]
+        let processed = processed.into_iter().collect::<BTreeMap<_, _>>();
 
         processed
             .into_iter()
